@@ -122,7 +122,9 @@ def run(ctx):
                 mode = rng.random()
                 cur = [max(0.0, c * rng.choice([0.5, 0.75, 1.0, 1.0, 1.25, 0.999, 0.03125]) if mode < 0.8 else dy_pos(rng)) for c in cur]
                 loss = list(cur)
-                st.step(torch.tensor(loss, dtype=torch.float64) if nb > 1 or rng.random() < 0.5 else loss[0])
+                # a python float is turned into a float32 tensor by step(): only pass one when that is exact
+                f32_exact = float(torch.tensor(loss[0])) == loss[0]
+                st.step(torch.tensor(loss, dtype=torch.float64) if nb > 1 or rng.random() < 0.5 or not f32_exact else loss[0])
                 ops.append(loss)
             trace.append((st.steps, st.patience_count, bool(st.continual())))
         ctx.case(('rtb-trace', t, cfg, len(ops)), branch='rtb-trace')
